@@ -181,10 +181,43 @@ def c04_3(ctx):
 
 # ------------------------------------------------------------------ C04.4
 def c04_4(ctx):
+    # BOTH ways into the Bitcoin Gold digest fold the fork id: _signature_hash (legacy inputs) and the method that
+    # SegwitChecker._make_witness_sighash_f calls for witness v0 inputs, _signature_for_hash_type_segwit, as Bitcoin Gold's
+    # checker resolves it (its own, or whatever it inherits)
+    btg = ctx.p.cls(BTG, "BgoldSolutionChecker")
+    it = ctx.interp
+    cv = it.get(btg.module.name, "BgoldSolutionChecker")
+    wm = ctx.p.lookup_method(btg, "_signature_for_hash_type_segwit")
+    if wm is None:
+        raise Undecided("BgoldSolutionChecker resolves no _signature_for_hash_type_segwit")
+    ww = sym.walk(ctx, wm)
+    pre = sym.calls_matching(ww, lambda t: t.endswith("_segwit_signature_preimage"))
+    folds = []
+    for e in pre:
+        if len(e.call.args) >= 3:
+            for n_ in ast.walk(e.call.args[2]):
+                if isinstance(n_, ast.BinOp) and isinstance(n_.op, ast.LShift) and df.const_int(n_.right) == 8:
+                    folds.append(n_.left)
+                elif isinstance(n_, ast.Constant) and isinstance(n_.value, int) and n_.value and n_.value % 256 == 0:
+                    folds.append(ast.Constant(n_.value >> 8))
+    if not pre:
+        ctx.undecided("btg-witness-digest-folds-forkid", ctx.where(wm), "%s does not call _segwit_signature_preimage in a form this clause reads" % wm.qualname)
+    else:
+        vals = []
+        for x in folds:
+            if isinstance(x, ast.Constant):
+                vals.append(x.value)
+            elif isinstance(x, ast.Attribute) and isinstance(x.value, ast.Name) and x.value.id == "self":
+                vals.append(it.getattr(cv, x.attr))       # the attribute as Bitcoin Gold's class has it
+            else:
+                vals.append(None)
+        ctx.check(bool(folds) and all(v == 79 for v in vals), "btg-witness-digest-folds-forkid", ctx.where(wm),
+                  "witness v0 inputs of Bitcoin Gold are hashed by %s, which folds %s into the hash type: the BTG digest commits to hash_type | 79 << 8 on EVERY route (SegwitChecker._make_witness_sighash_f calls this method directly, not _signature_hash)"
+                  % (wm.qualname, vals if folds else "no fork id"), sample={"method": wm.qualname, "fork_id_folded": vals})
+    if "_signature_for_hash_type_segwit" not in btg.methods:
+        raise Undecided("BgoldSolutionChecker no longer defines _signature_for_hash_type_segwit itself; the remaining clauses of this rule read that definition")
     f = ctx.func(BTG, "BgoldSolutionChecker._signature_for_hash_type_segwit")
     p = f.params()
-    it = ctx.interp
-    cv = it.get(f.module.name, "BgoldSolutionChecker")
     fid = it.getattr(cv, "FORKID_BTG")
     ctx.check(fid == 79, "btg-forkid", ctx.where(f), "Bitcoin Gold fork id evaluates to %r, expected 79" % (fid,))
     _refcheck(ctx, BTG, "BgoldSolutionChecker._signature_for_hash_type_segwit", "btg_signature_for_hash_type", "btg-fold")
